@@ -1076,6 +1076,54 @@ func genCases(o *h.Opts, rnd *h.Rand) []kase {
 		k.kind, k.nReq, k.results, k.notifs = kd, 0, "-", "d"
 		add(k)
 	}
+	if o.Thorough() {
+		// thorough: exhaustive status patterns for request lengths 0..4 against result lengths 0..6 on the
+		// length-sensitive operations, every answer kind for every getter x Variant class, random BrowseNext
+		// chains and notification lists
+		for n := 0; n <= 4; n++ {
+			for m := 0; m <= 6; m++ {
+				for pat := 0; pat < 1<<uint(m); pat++ {
+					if m > 4 && pat%5 != 0 {
+						continue
+					}
+					for _, op := range []string{"subMonitor", "subModifyItems", "subCancel", "call", "read", "write"} {
+						k := base(op)
+						k.nReq, k.results = n, gb(m, pat)
+						add(k)
+					}
+				}
+			}
+		}
+		for _, op := range getterOps {
+			for _, v := range vals {
+				for _, kd := range kinds {
+					k := base(op)
+					k.kind, k.val = kd, v
+					add(k)
+				}
+			}
+		}
+		for i := 0; i < 120; i++ {
+			var parts []string
+			for j := 0; j < 1+rnd.Intn(5); j++ {
+				parts = append(parts, fmt.Sprintf("%s:%d", kinds[[]int{0, 0, 0, 0, 1, 2, 3, 4}[rnd.Intn(8)]], rnd.Intn(4)))
+			}
+			k := base("references")
+			k.results, k.chain = gb(rnd.Intn(3), 0), strings.Join(parts, ",")
+			add(k)
+		}
+		letters := "desonn"
+		for i := 0; i < 120; i++ {
+			b := make([]byte, 1+rnd.Intn(6))
+			for j := range b {
+				b[j] = letters[rnd.Intn(len(letters))]
+			}
+			k := base("publish")
+			k.nReq, k.results, k.notifs = 0, gb(rnd.Intn(4), rnd.Intn(8)), string(b)
+			k.flags = []string{"-", "k", "p", "P"}[rnd.Intn(4)]
+			add(k)
+		}
+	}
 	// acknowledgements pending when the response arrives: every result count against 1 and 2 pending acks
 	for _, fl := range []string{"p", "P"} {
 		for m := 0; m <= 3; m++ {
